@@ -540,8 +540,10 @@ func runMonitors(prop, dir string) {
 		script, trace := so.Text(), st.Text()
 		n++
 		m.script = script
-		if strings.HasPrefix(script, "rrt ") || strings.HasPrefix(script, "ort ") || strings.HasPrefix(script, "swrt ") || strings.HasPrefix(script, "crt ") || strings.HasPrefix(script, "rcrt ") || strings.HasPrefix(script, "lrt ") {
-			if strings.HasPrefix(script, "lrt ") {
+		if strings.HasPrefix(script, "rrt ") || strings.HasPrefix(script, "ort ") || strings.HasPrefix(script, "swrt ") || strings.HasPrefix(script, "crt ") || strings.HasPrefix(script, "rcrt ") || strings.HasPrefix(script, "lrt ") || strings.HasPrefix(script, "rsrt ") {
+			if strings.HasPrefix(script, "rsrt ") {
+				nobs += m.rsrt(script, trace)
+			} else if strings.HasPrefix(script, "lrt ") {
 				nobs += m.lrt(script, trace)
 			} else if strings.HasPrefix(script, "rcrt ") {
 				nobs += m.rcrt(script, trace)
